@@ -37,12 +37,12 @@ Conv1(kind, v) ==
     [] kind = "bool" -> IF v[1] = "bool" THEN <<"ok", v>> ELSE <<"u">>
     [] kind = "big" -> IF v[1] = "num" THEN <<"ok", v>> ELSE IF v[1] \in {"str", "arr", "map", "time", "bool"} THEN <<"err">> ELSE <<"u">>
     [] kind = "time" -> IF v[1] = "time" THEN <<"ok", v>> ELSE <<"err">>          \* identical type only; null is not a time
-    [] kind \in {"strs", "ints", "anys"} ->
+    [] kind \in {"strs", "ints", "anys", "i32s"} ->
          IF v[1] # "arr" THEN (IF v[1] = "null" THEN <<"u">> ELSE <<"err">>)
-         ELSE LET ek == CASE kind = "strs" -> "string" [] kind = "ints" -> "int" [] OTHER -> "any"
+         ELSE LET ek == CASE kind = "strs" -> "string" [] kind = "ints" -> "int" [] kind = "i32s" -> "int32" [] OTHER -> "any"
                   r == ConvList(ek, v[2], 1, <<>>)
               IN IF r[1] # "ok" THEN r
-                 ELSE <<"ok", CASE kind = "strs" -> <<"arr", r[2], "strs">> [] kind = "ints" -> <<"arr", r[2], "[]int">> [] OTHER -> <<"arr", r[2]>>>>
+                 ELSE <<"ok", CASE kind = "strs" -> <<"arr", r[2], "strs">> [] kind = "ints" -> <<"arr", r[2], "[]int">> [] kind = "i32s" -> <<"arr", r[2], "[]int32">> [] OTHER -> <<"arr", r[2]>>>>
     [] kind = "smap" -> IF v[1] = "map" THEN <<"ok", <<"ANY">>>> ELSE IF v[1] = "null" THEN <<"u">> ELSE <<"u">>
 ConvList(ek, l, i, acc) ==
   IF i > Len(l) THEN <<"ok", acc>>
